@@ -656,6 +656,65 @@ func runC03(r *Run) {
 	r.Rule("R13", "see C06 R7 (imported): the ante router returns success only through one of its three route chains — a fast path in the router (genesis transactions 'validated when the genesis file was assembled') executes transactions whose signature nobody checked")
 	r.Import("R13/C06.", []string{"R7"}, runC06)
 	checkParamsRewrites(r, "R14")
+	r.Rule("R15", "SHAPE.sign-bytes-are-the-message's-own: for the amino/legacy sign modes the bytes a signer signs are GetSignBytes() of each message. In every Haqq message type GetSignBytes marshals the message itself (its receiver) — not a rebuilt copy with 'canonicalised' or defaulted fields: if the signed bytes are a function of less than the message, two different messages (an address in lower and in upper case, decoded alike by the handler) carry the same valid signature, and anyone relaying the transaction can swap one for the other")
+	{
+		nSB := 0
+		for _, fn := range r.P.Funcs {
+			if fn.Name() != "GetSignBytes" || fn.Signature.Recv() == nil || fn.Synthetic != "" || isTestSupport(r.P, fn) || !isHaqqPath(fnPkgPath(fn)) || isGeneratedFile(r.P.FileOf(fnPos(fn))) {
+				continue
+			}
+			nSB++
+			recv := fn.Params[0]
+			okSelf, nM := true, 0
+			eachCall(fn, func(ci CallInfo) {
+				if !(ci.Name == "MustMarshalJSON" || ci.Name == "MarshalJSON" || ci.Name == "MustMarshal") {
+					return
+				}
+				nM++
+				self := false
+				for _, a := range ci.Instr.Common().Args {
+					v := a
+					if mi, ok := v.(*ssa.MakeInterface); ok {
+						v = mi.X
+					}
+					v = stripValue(v)
+					if v == ssa.Value(recv) {
+						self = true
+					}
+					// value receiver: the message is spilled into an alloc whose only writer is the receiver
+					if al, ok := v.(*ssa.Alloc); ok && al.Referrers() != nil {
+						nSt, okSt := 0, true
+						for _, ref := range *al.Referrers() {
+							if st, ok := ref.(*ssa.Store); ok && st.Addr == ssa.Value(al) {
+								nSt++
+								if st.Val != ssa.Value(recv) {
+									okSt = false
+								}
+							}
+						}
+						if nSt == 1 && okSt {
+							self = true
+						}
+					}
+					if u, ok := v.(*ssa.UnOp); ok && stripValue(u.X) == ssa.Value(recv) {
+						self = true
+					}
+				}
+				if !self {
+					okSelf = false
+				}
+			})
+			if nM == 0 && fnOnlyPanics(fn) {
+				r.OK("R15", fnID(fn)+"#marshals-its-receiver", r.P.Pos(fnPos(fn)), "not usable for signing (panics)")
+				continue
+			}
+			r.Check(okSelf && nM >= 1, "R15", fnID(fn)+"#marshals-its-receiver", r.P.Pos(fnPos(fn)), "the marshalled value is the receiver",
+				"GetSignBytes marshals something other than the message it belongs to (a rebuilt copy): the signature no longer covers every byte of the message that is executed")
+		}
+		r.Floor("R15", "GetSignBytes methods of Haqq message types", nSB, 10)
+	}
+	r.Rule("R16", "see C02 R3 (imported): the sequence (nonce) of every journal-dirty account is written back by the StateDB's write-back loop on every flush and commit — a 'skip unchanged accounts' shortcut judged against the value at load time leaves an intermediate nonce that a mid-transaction flush wrote in the store (the creation message of a [create(n), call(n+1)] batch), i.e. a sequence the ante handler already consumed can be consumed again")
+	r.Import("R16/C02.", []string{"R3"}, runC02)
 }
 
 // c03ChainRunsThrough (C03 R12): no decorator ends its chain with success.
@@ -988,4 +1047,15 @@ func checkParamsRewrites(r *Run, rule string) {
 		})
 	}
 	r.Count(rule+" parameter fields copied between sets of the same type", n)
+}
+
+// fnOnlyPanics: the function has no return instruction (every path ends in a panic).
+func fnOnlyPanics(fn *ssa.Function) bool {
+	hasRet := false
+	eachInstr(fn, func(in ssa.Instruction) {
+		if _, ok := in.(*ssa.Return); ok {
+			hasRet = true
+		}
+	})
+	return !hasRet
 }
